@@ -189,6 +189,12 @@ def rule_T9_pcapng(tree: Tree) -> RuleResult:
         r.ob(ok_all, Finding("T9p", f"dpkt_dsb:{f.qualname}:block-consumption",
                              f"{f.qualname}: every block must be consumed (`read(blk_len - 8)` after the 8-byte header) before its type is "
                              f"inspected, so that unknown blocks are skipped without effect", m.line(f.node)))
+    # every iteration starts at the beginning of the file (blocks between section header and interface description — e.g. a DSB — are packets of the stream too)
+    r.instances += 1
+    first = strip_stmts(it.node.body)[0] if it.node.body else None
+    r.ob(first is not None and src(first) in ("self.__f.seek(0)", "self._Reader__f.seek(0)"),
+         Finding("T9p", "dpkt_dsb:Reader.__iter__:rewind", f"Reader.__iter__ must rewind to offset 0 before reading blocks, found `{src(first) if first is not None else None}`: secrets blocks "
+                                                          f"placed before the interface description would never be delivered", m.line(it.node)))
     # nothing but end-of-file leaves the packet loop: no break / return / raise under a block-type test
     r.instances += 1
     cfgi = cfg_of(it.node)
@@ -230,10 +236,15 @@ def rule_T9_pcapng(tree: Tree) -> RuleResult:
                 off_ok = canon(n.value) == canon(ast.parse("self.__hdr_len__ - 4", mode="eval").body)
             if isinstance(n, ast.Assign) and (dotted(n.targets[0]) or "").endswith("pkt_data"):
                 data_ok = canon(n.value) == canon(ast.parse("buf[po:po + self.secrets_length]", mode="eval").body)
-    r.ob(hdr == [("type", "I"), ("len", "I"), ("secrets_type", "I"), ("secrets_length", "I"), ("_len", "I")] and off_ok and data_ok,
+    opts_ok = False
+    if un is not None:
+        for n in body_walk(un.node):
+            if isinstance(n, ast.Assign) and dotted(n.targets[0]) == "opts_offset":
+                opts_ok = canon(n.value) == canon(ast.parse("po + dpng._align32b(self.secrets_length)", mode="eval").body)
+    r.ob(hdr == [("type", "I"), ("len", "I"), ("secrets_type", "I"), ("secrets_length", "I"), ("_len", "I")] and off_ok and data_ok and opts_ok,
          Finding("T9p", "dpkt_dsb:DecryptionSecretBlock:layout",
                  f"DSB layout must be type,len,secrets_type,secrets_length (4×uint32) followed by secrets_length bytes at offset hdr_len-4; "
-                 f"found header {hdr}, offset ok={off_ok}, data slice ok={data_ok}", m.line(dsb.node)))
+                 f"found header {hdr}, offset ok={off_ok}, data slice ok={data_ok}, options at the 32-bit aligned end of the secrets={opts_ok}", m.line(dsb.node)))
     # both readers feed the same loop
     r.instances += 1
     rc = cfg_of(run.node)
